@@ -510,6 +510,18 @@ func RunKV(sc *KVScenario, log *EventLog, workDir string) error {
 			// ciphertext (and nonce) must differ and every entry must stay readable
 			var wg sync.WaitGroup
 			stop := make(chan struct{})
+			// learn which file belongs to which key (one sequential Set each, directory diff)
+			fileOf := map[int]string{}
+			for wi := 0; wi < op.N && wi < len(r.keys); wi++ {
+				before := snapshotFiles(r.files())
+				_ = r.conn.Set(string(r.keys[wi]), r.vals[op.V])
+				if f, n := changedFile(before, r.files()); n == 1 {
+					fileOf[wi] = f
+				}
+			}
+			var smu sync.Mutex
+			nonces := map[string]int{}
+			bad := 0
 			for wi := 0; wi < op.N && wi < len(r.keys); wi++ {
 				wg.Add(1)
 				go func(wi int) {
@@ -521,6 +533,17 @@ func RunKV(sc *KVScenario, log *EventLog, workDir string) error {
 						default:
 						}
 						_ = r.conn.Set(string(r.keys[wi]), append([]byte(nil), r.vals[op.V]...))
+						// nobody else writes this key: what was just set must be readable, under a nonce of its own
+						b, err := r.conn.Get(string(r.keys[wi]))
+						raw, _ := os.ReadFile(fileOf[wi])
+						smu.Lock()
+						if err != nil || !bytes.Equal(b, r.vals[op.V]) {
+							bad++
+						}
+						if len(raw) >= 12 {
+							nonces[string(raw[:12])]++
+						}
+						smu.Unlock()
 					}
 				}(wi)
 			}
@@ -528,19 +551,14 @@ func RunKV(sc *KVScenario, log *EventLog, workDir string) error {
 			close(stop)
 			wg.Wait()
 			same := 0
-			seen := map[string]bool{}
-			for _, f := range r.files() {
-				b, err := os.ReadFile(f)
-				if err != nil || len(b) < 12 {
-					continue
-				}
-				if seen[string(b[:12])] {
+			for _, n := range nonces {
+				if n > 1 {
 					same++
 				}
-				seen[string(b[:12])] = true
 			}
 			ev["samect"] = b2i(same > 0)
-			ev["ok"] = 1
+			ev["ok"] = b2i(bad == 0)
+			ev["st"] = bad
 		case "stress":
 			// free-running writers alternating two values, readers and a deleter on one key
 			key := string(r.keys[op.K])
